@@ -155,6 +155,18 @@ EXTRA14 = {
  "C19": "Round 14: compounds holding a cell compared again after the cell was assigned; closures made by executing one named declaration several times.",
  "C20": "Round 14: the type of what was read back is == to the original's in the implementation's own eyes; long renderings whose strings contain the separators of the rendering.",
 }
+EXTRA15 = {
+ "C02": "Round 15: callees known only as unions of function types over structs of different widths, tuples, arrays, cells, functions; programs that print while stdout refuses writes.",
+ "C04": "Round 15: the twins compared on the third execution of one parsed program; comparisons under `!` among the partial constants (NaN, infinities, boundary ints).",
+ "C05": "Round 15: struct types over the same field names with different field types (meets, joins, derived queries on fresh threads).",
+ "C07": "Round 15: effectful operands of `==` / `!=` between values of different kinds, repeated field names, discarded operations, with documented effect logs.",
+ "C12": "Round 15: match coverage after ten binding constructs that re-use the scrutinee's name at another type.",
+ "C14": "Round 15: comments between tokens that would otherwise form a longer operator.",
+ "C16": "Round 15: compound values in a shared cell taken apart by readers while others assign whole values.",
+ "C17": "Round 15: arrays with a wider label produced by one input and sliced by a later one, the slice's kind tested.",
+}
+for _k, _v in EXTRA15.items():
+    EXTRA14[_k] = (EXTRA14.get(_k, "") + " " + _v).strip()
 for _k, _v in EXTRA14.items():
     EXTRA13[_k] = (EXTRA13.get(_k, "") + " " + _v).strip()
 for _k, _v in EXTRA13.items():
